@@ -158,6 +158,20 @@ func normalize(t *Term) *Term {
 		return projectField(t.Args[0], t.S)
 	case "load":
 		// load(field(p,f)) stays; nothing to do
+	case "append":
+		// contents of slices built from literals: append(make(T, 0, c), xs...)
+		// is xs, append(literal, xs...) is the concatenation
+		if len(t.Args) == 2 && t.Args[1].Op == "arr" {
+			base := t.Args[0]
+			switch {
+			case base.Op == "makeslice" && len(base.Args) >= 1 && base.Args[0].Op == "const" && base.Args[0].S == "0":
+				return &Term{Op: "arr", S: t.Args[1].S, Args: t.Args[1].Args}
+			case base.Op == "arr":
+				return &Term{Op: "arr", S: base.S, Args: append(append([]*Term{}, base.Args...), t.Args[1].Args...)}
+			case base.Op == "nil":
+				return &Term{Op: "arr", S: t.Args[1].S, Args: t.Args[1].Args}
+			}
+		}
 	}
 	return t
 }
@@ -340,7 +354,7 @@ func (e *termEngine) callTerm(c *ssa.CallCommon) *Term {
 	}
 	name := calleeName(c)
 	if strings.HasPrefix(name, "builtin:") {
-		return &Term{Op: strings.TrimPrefix(name, "builtin:"), Args: args}
+		return normalize(&Term{Op: strings.TrimPrefix(name, "builtin:"), Args: args})
 	}
 	return normalize(&Term{Op: "call", S: name, Args: args})
 }
